@@ -311,6 +311,20 @@ func checkC16(c C16Case) *Fail {
 				if !usable[lang] {
 					continue
 				}
+				cuts := cuts
+				if lang == "python" && len(full) > 40000 && len(cuts) > 90 && len(c.OnlyCuts) == 0 {
+					// the Python reader needs about a second per 100 kB prefix: keep the cuts next to the
+					// buffer boundaries and an even sample of the others
+					var keep []int
+					step := len(cuts)/60 + 1
+					for k, p := range cuts {
+						if m := p % 65536; m < 16 || m > 65536-16 || k%step == 0 {
+							keep = append(keep, p)
+						}
+					}
+					cuts = keep
+					rec.Class("python-cuts-thinned")
+				}
 				var jobs []sut.Job
 				for _, cut := range cuts {
 					in := filepath.Join(b.Root, fmt.Sprintf("cut%d.%s.%d", ri, fmtName, cut))
